@@ -52,3 +52,13 @@ Theorem C09_bluegreen_reconcile_no_panic :
   forall sp st w br, Proofs.RolloutSM.rollout_wf sp st br -> RolloutBG.reconcile_bg sp st w br <> RolloutSM.RPanic.
 Proof. exact Proofs.RolloutBG.reconcile_bg_no_panic. Qed.
 Print Assumptions C09_bluegreen_reconcile_no_panic.
+
+(* the canary-style Deployment control plane: Initialize returns for every state, patch metadata shape and fault (the model
+   is total), claims the stable Deployment before it creates, and creates at most one canary Deployment *)
+From RV Require Model.CtlPlane Proofs.CtlPlane.
+Theorem C09_canary_initialize_total_and_creates_at_most_one : forall f d o d',
+  CtlPlane.cdep_initialize f d = (o, d') ->
+  CtlPlane.cd_canaries d' = CtlPlane.cd_canaries d \/
+  (CtlPlane.cd_canaries d = [] /\ CtlPlane.cd_canaries d' = [true] /\ CtlPlane.cd_claimed d' = true).
+Proof. exact Proofs.CtlPlane.cdep_initialize_creates_at_most_one. Qed.
+Print Assumptions C09_canary_initialize_total_and_creates_at_most_one.
